@@ -586,7 +586,7 @@ def main():
         if os.environ.get("MIRSYM_TRACE"):
             import traceback
             traceback.print_exc()
-    if failures and status == 0:
+    if failures:  # a counterexample stands even if a later scenario met an unmodelled call (it is replayed natively anyway)
         status = 1
     out = {"max_chain_depth_seen": max(cur_depths) if cur_depths else 0, "functions_encoded": sorted(stats["functions"]), "scenarios": stats["scenarios"], "paths": stats["paths"], "paths_proved": stats["proved"],
            "queries": stats["queries"], "solver_s": round(stats["solver_s"], 2), "wall_s": round(time.time() - t0, 2), "failures": failures[:12], "samples": samples[:10]}
